@@ -12,7 +12,7 @@ import tempfile
 
 from hypothesis import strategies as st
 
-from vlib.core import Sub, req, sut
+from vlib.core import fuzz_variant, Sub, req, sut
 
 PROPERTY = "C20"
 RULE = ("lists of 0-12 calls of one type on chromosomes 1-3 with reference intervals placed so that consecutive calls fall within / "
@@ -216,7 +216,7 @@ def finder_strategy(draw):
 
 def subchecks(tier):
     q = tier == "quick"
-    return [
+    subs = [
         Sub("cluster", "hyp", check_cluster, strategy=lambda: calls_strategy(), examples=40000 if q else 1000000, shrink_budget=1000,
             required_classes=("chromosomes=2", "merges=1", "repeated-ids")),
         Sub("write-file", "hyp", check_write, strategy=lambda: calls_strategy(types=("insertion", "deletion")), examples=4000 if q else 100000,
@@ -224,3 +224,8 @@ def subchecks(tier):
         Sub("finders", "hyp", check_finders, strategy=finder_strategy, examples=8000 if q else 200000, shrink_budget=500,
             required_classes=("insertion", "deletion", "reverse-alignment")),
     ]
+    if not q:
+        subs.append(fuzz_variant(next(s for s in subs if s.name == "cluster"), 60000, include=('write_indel_files',)))
+    if not q:
+        subs.append(fuzz_variant(next(s for s in subs if s.name == "finders"), 30000, include=('molecule_indels', 'segment_indels')))
+    return subs
